@@ -64,7 +64,9 @@ def eval_paths(model, fi, r, bindings, what):
     return hits[0]
 
 
-def tpl1(ctx: Ctx):
+def tpl1(ctx: Ctx, parse_reachable_only=False):
+    """`parse_reachable_only`: only the part classes the splitter can produce from a string (C07's clause is about parsed input):
+    without a scheme the first path segment holds no ':' - such text would have been cut as a scheme."""
     model = ctx.model
     rule = "TPL1"
     ctx.rule(rule, floor=90, what="what the printer emits is what the splitter cuts (RFC 3986 Appendix B), for every class of parts")
@@ -78,6 +80,8 @@ def tpl1(ctx: Ctx):
                                                                                QUERIES.items(), FRAGMENTS.items()):
         if nv and pv and not pv.startswith("/"):
             continue       # an authority with a rootless path is not a URL the library constructs from valid input
+        if parse_reachable_only and not sv and pv == "a:b":
+            continue
         b = dict(zip(params, (sv, nv, pv, qv, fv)))
         text, idx = eval_paths(model, fi, r, b, "unsplit_result")
         covered.add(idx)
